@@ -311,7 +311,7 @@ def _const_name(line):
     return s
 
 class Body:
-    __slots__=('name','header','params','ret','locals','blocks','kind','text_hash')
+    __slots__=('name','header','params','ret','locals','blocks','kind','text_hash','raw')
     def __repr__(self): return '<Body %s>'%self.name
 
 def parse_file(path):
@@ -330,7 +330,7 @@ def parse_file(path):
                 m1=_M(nm,'',m1.group(3))
                 b=Body(); b.header=line; b.locals={}; b.params=[]; b.ret=m1.group(2); b.kind='const'; b.name=m1.group(1)
                 b.blocks={'bb0':{'cleanup':False,'stmts':[('assign',('local',0),('use',('const',m1.group(3).strip()))),('return',)]}}
-                b.text_hash=hashlib.sha256(line.encode()).hexdigest()[:16]
+                b.raw=line; b.text_hash=hashlib.sha256(line.encode()).hexdigest()[:16]
                 bodies.append(b); continue
             if line.rstrip().endswith('{') and (line.startswith('fn ') or line.startswith('const ') or line.startswith('static ') or line.startswith('promoted[')):
                 cur=Body(); cur.header=line; cur.locals={}; cur.blocks={}; cur.params=[]; cur.ret=''
@@ -357,7 +357,7 @@ def parse_file(path):
         elif bb and line.strip()=='}':
             bb=None
         elif line=='}':
-            cur.text_hash=hashlib.sha256('\n'.join(buf).encode()).hexdigest()[:16]
+            cur.raw='\n'.join(buf); cur.text_hash=hashlib.sha256(cur.raw.encode()).hexdigest()[:16]
             cur=None
         elif bb:
             st=line.strip()
